@@ -200,6 +200,11 @@ def eps_int_step(r, *, side=1, lo=1, hi=0.5):
     return hi if side * r[0] > 0 else lo
 
 
+def eps_ends(r, *, x0=1.0, lo=-1.0, hi=1.0):
+    """epsilon = lo near the two ends of the device (|x| > x0, where the contacts are), hi in between."""
+    return lo if abs(r[0]) > x0 else hi
+
+
 def eps_timedep(r, *, t, amp=0.3, omega=1.0, base=0.6, vectorized=True):
     r = np.atleast_2d(r)
     return (base - amp * math.sin(omega * t) ** 2) * np.ones(len(r))
@@ -275,6 +280,8 @@ def build_epsilon(spec):
         return _bind_kwonly(eps_timedep, amp=spec["amp"], omega=spec["omega"], base=spec["base"])
     if spec["kind"] == "int_step":
         return _bind_kwonly(eps_int_step, side=spec["side"], lo=int(spec["lo"]), hi=float(spec["hi"]))
+    if spec["kind"] == "ends":
+        return _bind_kwonly(eps_ends, x0=float(spec["x0"]), lo=float(spec["lo"]), hi=float(spec["hi"]))
     raise ValueError(spec["kind"])
 
 
@@ -324,6 +331,9 @@ def eval_epsilon(spec, sites_phys, t):
     if spec["kind"] == "int_step":
         x = np.asarray(sites_phys)[:, 0]
         return np.where(spec["side"] * x > 0, float(spec["hi"]), float(spec["lo"]))
+    if spec["kind"] == "ends":
+        x = np.asarray(sites_phys)[:, 0]
+        return np.where(np.abs(x) > float(spec["x0"]), float(spec["lo"]), float(spec["hi"]))
     raise ValueError(spec["kind"])
 
 
